@@ -495,11 +495,23 @@ impl datagram_pipe::Sink for DatagramSink {
             .map(|x| x.socket.clone())
             .ok_or_else(|| io::Error::from(ErrorKind::NotFound))?;
 
-        socket
+        // an error of one association's socket (e.g. the relay's port is closed) costs that
+        // datagram only
+        if let Err(e) = socket
             .send_to(datagram.payload.as_ref(), meta.destination)
             .await
-            .map(|_| datagram_pipe::SendStatus::Sent)
-            .map_err(socks_to_io_error)
+        {
+            log_id!(
+                debug,
+                self.shared.id,
+                "Failed to send UDP datagram: meta={:?} error={}",
+                meta,
+                socks_to_io_error(e)
+            );
+            return Ok(datagram_pipe::SendStatus::Dropped);
+        }
+
+        Ok(datagram_pipe::SendStatus::Sent)
     }
 }
 
